@@ -310,6 +310,17 @@ pub fn run(tier: &str, seed: u64, out: &str) {
         std::process::exit(2)
     });
     let mut root_boards: Vec<(Board, u64)> = roots.iter().filter_map(|r| setup(&r.pos, &rep, "C14")).map(|b| (b, 0)).collect();
+    // the roots with move lists as long as chess allows (nine queens, seven promoted men a side):
+    // explored on their own, one ply less (their neighbourhoods are two orders of magnitude larger)
+    let mut extreme_boards: Vec<(Board, u64)> = Vec::new();
+    for r in roots::extreme_roots().unwrap_or_else(|e| {
+        eprintln!("MACHINERY ERROR: {}", e);
+        std::process::exit(2)
+    }) {
+        if let Some(b) = setup(&r.pos, &rep, "C14") {
+            extreme_boards.push((b, 0));
+        }
+    }
     // extreme-material roots for the bound
     for fen in ["qqqqkqqq/qq6/8/8/8/8/QQ6/QQQQKQQQ w - - 0 1", "qqqqkqqq/qq6/8/8/8/8/8/4K3 w - - 0 1", "4k3/8/8/8/8/8/QQ6/QQQQKQQQ b - - 0 1"] {
         let p = Pos::from_fen(fen).unwrap();
@@ -328,6 +339,11 @@ pub fn run(tier: &str, seed: u64, out: &str) {
     if gs.capped {
         rep.cap(format!("root neighbourhood stopped after {} states", gs.states));
     }
+    let ge = explore(&extreme_boards, depth - 1, if thorough { 60_000_000 } else { 6_000_000 }, &ec);
+    if ge.capped {
+        rep.cap(format!("extreme-root neighbourhood stopped after {} states", ge.states));
+    }
+    eprintln!("[C14] extreme roots: {} states to depth {} ({:.1}s)", ge.states, depth - 1, rep.elapsed());
     eprintln!("[C14] roots: {} states ({:.1}s)", gs.states, rep.elapsed());
     // complete class F1 (the per-(colour, piece, square) contributions all appear here)
     let mut class_states = 0u64;
